@@ -83,6 +83,7 @@ type c19Obs struct {
 	VStat   []c19VS
 	Stake   [][2]string // addr id, amount
 	Bounty  string
+	VRec    [][2]string // BeginBlock steps: addr id, staking amount of the validator record
 }
 type c19Op struct {
 	Kind         string // begin allege vote release stake end
@@ -248,8 +249,27 @@ func (r *c19Run) observe() c19Obs {
 }
 
 type c19ValRec struct {
-	Address keys.Address `json:"address"`
-	Power   int64        `json:"power"`
+	Address keys.Address   `json:"address"`
+	Power   int64          `json:"power"`
+	Staking balance.Amount `json:"staking"`
+}
+
+func (r *c19Run) vrec() [][2]string {
+	out := [][2]string{}
+	v := r.rep.View()
+	for _, k := range sortedKeys(v) {
+		if !strings.HasPrefix(k, "v_") {
+			continue
+		}
+		rec := &c19ValRec{}
+		if err := json.Unmarshal([]byte(v[k]), rec); err != nil {
+			continue
+		}
+		if id := r.id(rec.Address); id > 0 {
+			out = append(out, [2]string{fmt.Sprint(id), rec.Staking.BigInt().String()})
+		}
+	}
+	return out
 }
 
 // queue = validator records of the committed tree (version h-1), by power descending
@@ -381,7 +401,9 @@ func c19RunScript(sc *c19Script) (cs *c19Case) {
 		}
 		r.beginBlock(dt, absent)
 		h := r.rep.H
-		cs.Steps = append(cs.Steps, c19Step{Op: c19Op{Kind: "begin", H: h, T: r.t.Unix(), Low: r.low(committed)}, Ok: true, Obs: r.observe(), Descr: fmt.Sprintf("begin %d", h)})
+		bobs := r.observe()
+		bobs.VRec = r.vrec()
+		cs.Steps = append(cs.Steps, c19Step{Op: c19Op{Kind: "begin", H: h, T: r.t.Unix(), Low: r.low(committed)}, Ok: true, Obs: bobs, Descr: fmt.Sprintf("begin %d", h)})
 		for _, a := range b.Acts {
 			if a.Who < 0 || a.Who >= len(r.cast) {
 				continue
@@ -540,7 +562,11 @@ func (o c19Obs) coq() string {
 	for _, s := range o.Stake {
 		sk = append(sk, "("+s[0]+","+c19ZS(s[1])+")")
 	}
-	return fmt.Sprintf("(mkObs [%s] %s [%s] [%s] [%s] %s)", strings.Join(rq, ";"), c19List(o.Tracker), strings.Join(sp, ";"), strings.Join(vs, ";"), strings.Join(sk, ";"), c19ZS(o.Bounty))
+	vr := []string{}
+	for _, s := range o.VRec {
+		vr = append(vr, "("+s[0]+","+c19ZS(s[1])+")")
+	}
+	return fmt.Sprintf("(mkObs [%s] %s [%s] [%s] [%s] %s [%s])", strings.Join(rq, ";"), c19List(o.Tracker), strings.Join(sp, ";"), strings.Join(vs, ";"), strings.Join(sk, ";"), c19ZS(o.Bounty), strings.Join(vr, ";"))
 }
 
 func (op c19Op) coq() string {
@@ -668,6 +694,27 @@ func c19GenScript(r *rand.Rand, name string, nblocks int) *c19Script {
 				}
 				if r.Intn(8) == 0 {
 					a.BH = 3
+				}
+				if r.Intn(5) == 0 {
+					// more requests against the same accused in this block, and votes on all of them
+					first := a
+					blk.Acts = append(blk.Acts, first)
+					n := 1 + r.Intn(2)
+					ids := []int{first.Req}
+					for j := 0; j < n; j++ {
+						d := c19Act{Kind: "allege", Who: r.Intn(nv), Mal: first.Mal, Req: nreq}
+						ids = append(ids, nreq)
+						nreq++
+						blk.Acts = append(blk.Acts, d)
+					}
+					for _, id := range ids {
+						for v := 0; v < nv; v++ {
+							if r.Intn(4) != 0 {
+								blk.Acts = append(blk.Acts, c19Act{Kind: "vote", Who: v, Req: id, Choice: 1})
+							}
+						}
+					}
+					continue
 				}
 			case x < 12:
 				if nreq == 0 {
@@ -876,6 +923,45 @@ func c19Directed() []*c19Script {
 			c19Block{DT: 15, Acts: []c19Act{{Kind: "stake", Who: 3, Amount: 500}, {Kind: "unstake", Who: 3, Amount: 500}, {Kind: "withdraw", Who: 3, Amount: 1}, {Kind: "vote", Who: 3, Req: 1, Choice: 1}, {Kind: "allege", Who: 3, Mal: 1, Req: 3}, {Kind: "release", Who: 3}}},
 			c19Block{DT: 15, Acts: []c19Act{{Kind: "unstake", Who: 3, Amount: 500}, {Kind: "vote", Who: 3, Req: 1, Choice: 2}}})
 		sc.Blocks = append(sc.Blocks, idle(7)...)
+		out = append(out, sc)
+	}
+	// several requests against ONE validator opened in one block (CheckRequestExists only sees
+	// committed records) with all deciding votes in that same block; variants: the votes of the
+	// second request a block later; three requests
+	for variant := 0; variant < 3; variant++ {
+		c := base
+		sc := &c19Script{Name: fmt.Sprintf("duplicate-requests-one-block-%d", variant), NVals: 5, Cfg: c}
+		sc.Blocks = idle(5)
+		b := c19Block{DT: 15, Acts: []c19Act{{Kind: "allege", Who: 0, Mal: 4, Req: 0}, {Kind: "allege", Who: 1, Mal: 4, Req: 1}}}
+		if variant == 2 {
+			b.Acts = append(b.Acts, c19Act{Kind: "allege", Who: 2, Mal: 4, Req: 2})
+		}
+		b.Acts = append(b.Acts, votes(0, []int{0, 1, 2}, nil)...)
+		if variant != 1 {
+			b.Acts = append(b.Acts, votes(1, []int{0, 1, 2}, nil)...)
+		}
+		if variant == 2 {
+			b.Acts = append(b.Acts, votes(2, []int{0, 1, 2}, nil)...)
+		}
+		sc.Blocks = append(sc.Blocks, b)
+		if variant == 1 {
+			sc.Blocks = append(sc.Blocks, c19Block{DT: 15, Acts: votes(1, []int{0, 1, 2}, nil)})
+		}
+		sc.Blocks = append(sc.Blocks, idle(4)...)
+		out = append(out, sc)
+	}
+	// votes of validators that have left the active set: 1 votes YES, then unstakes below the minimum
+	// and drops out; a second YES vote makes 2 of ceil(3*50%) = 2 required
+	{
+		c := base
+		sc := &c19Script{Name: "stale-votes", NVals: 4, Cfg: c}
+		sc.Blocks = idle(5)
+		sc.Blocks = append(sc.Blocks,
+			c19Block{DT: 15, Acts: append([]c19Act{{Kind: "allege", Who: 0, Mal: 3, Req: 0}}, votes(0, []int{1}, nil)...)},
+			c19Block{DT: 15, Acts: []c19Act{{Kind: "unstake", Who: 1, Amount: 2998500}}},
+			c19Block{DT: 15},
+			c19Block{DT: 15, Acts: votes(0, []int{0}, nil)})
+		sc.Blocks = append(sc.Blocks, idle(3)...)
 		out = append(out, sc)
 	}
 	// accused is not a validator
